@@ -2,6 +2,7 @@ package e2e
 
 import (
 	"fmt"
+	"math/rand"
 	"os"
 	"os/exec"
 	"path/filepath"
@@ -129,6 +130,27 @@ func FilterConfigs(thorough bool) []string {
 	return base
 }
 
+// childCfg: one child process = one filter configuration and one server configuration (pool = 0:
+// a goroutine per request, the framework default; pool > 0: maxroutine workers).
+type childCfg struct {
+	filters string
+	pool    int
+}
+
+// ChildConfigs of a tier: every filter configuration on the default server, plus worker-pool
+// servers (pool.go) of size 1 and 2.
+func ChildConfigs(thorough bool) []childCfg {
+	var out []childCfg
+	for _, f := range FilterConfigs(thorough) {
+		out = append(out, childCfg{f, 0})
+	}
+	out = append(out, childCfg{"c0.0.0.0-s0.0.0.0", 1}, childCfg{"c0.2.0.0-s0.2.0.0", 2})
+	if thorough {
+		out = append(out, childCfg{"c1.0.0.0-s1.0.0.0", 2}, childCfg{"c0.0.2.1-s0.0.1.2", 1}, childCfg{"c0.3.2.2-s0.1.3.3", 2}, childCfg{"c0.2.0.0-s0.2.0.0", 1})
+	}
+	return out
+}
+
 // Launch: generate interfaces, compile them with the working tree's tars2go, build the child and
 // run it once per filter configuration; merge the results.
 func Launch() {
@@ -139,16 +161,32 @@ func Launch() {
 	if err != nil {
 		res.Fatal(o.Out, err)
 	}
-	defer os.RemoveAll(tmp)
+	if os.Getenv("VERIF_E2E_KEEP") == "" { // debugging aid: keep the generated module and the child binary
+		defer os.RemoveAll(tmp)
+	} else {
+		fmt.Fprintln(os.Stderr, "keeping", tmp)
+	}
 	repo := repoDir()
 	if out, err := runCmd(filepath.Join(repo, "tars/tools/tars2go"), 5*time.Minute, goEnv(), "go", "build", "-o", filepath.Join(tmp, "tars2go"), "."); err != nil {
 		res.Fatal(o.Out, fmt.Errorf("tars2go does not build: %v\n%s", err, out))
 	}
+	// a replay names the generator seed and tier of the run that produced it: same interfaces
+	var rcase *Case
+	if o.Replay != "" {
+		var c Case
+		if err := common.ReadReplay(o.Replay, &c); err == nil && c.Filters != "" {
+			rcase = &c
+		}
+	}
+	genSeed, genTier := o.Seed, o.Tier
+	if rcase != nil && rcase.GenTier != "" {
+		genSeed, genTier = rcase.GenSeed, rcase.GenTier
+	}
 	nmod := 2
-	if o.Thorough() {
+	if genTier == "thorough" {
 		nmod = 12
 	}
-	rng := o.Rand()
+	rng := rand.New(rand.NewSource(genSeed))
 	var mods []*idlgen.ModuleDesc
 	for i := 0; i < nmod; i++ {
 		name := fmt.Sprintf("Gen%d", i)
@@ -186,31 +224,49 @@ func Launch() {
 		res.Write(o.Out)
 		return
 	}
-	cfgs := FilterConfigs(o.Thorough())
-	if o.Replay != "" {
-		var c Case
-		if err := common.ReadReplay(o.Replay, &c); err == nil && c.Filters != "" {
-			cfgs = []string{c.Filters}
-		}
+	cfgs := ChildConfigs(o.Thorough())
+	if rcase != nil {
+		cfgs = []childCfg{{rcase.Filters, rcase.Pool}}
 	}
 	var wg sync.WaitGroup
 	var mu sync.Mutex
-	sem := make(chan struct{}, 6)
+	sem := make(chan struct{}, 8)
+	only := os.Getenv("VERIF_E2E_ONLY") // debugging aid: "<filters>:<pool>" runs just that child (same seed as in a full run)
 	for i, fc := range cfgs {
+		if only != "" && only != fmt.Sprintf("%s:%d", fc.filters, fc.pool) {
+			continue
+		}
 		wg.Add(1)
-		go func(i int, fc string) {
+		go func(i int, fc childCfg) {
 			defer wg.Done()
 			sem <- struct{}{}
 			defer func() { <-sem }()
 			outFile := filepath.Join(tmp, fmt.Sprintf("res%d.json", i))
 			args := []string{"-tier", o.Tier, "-seed", fmt.Sprint(o.Seed + int64(i)), "-model", o.Model, "-out", outFile}
-			env := append(os.Environ(), "VERIF_E2E_FILTERS="+fc)
-			out, err := runCmd(tmp, 15*time.Minute, env, filepath.Join(tmp, "child"), args...)
-			r, lerr := common.LoadResult(outFile)
+			env := append(os.Environ(), "VERIF_E2E_FILTERS="+fc.filters, fmt.Sprintf("VERIF_E2E_POOL=%d", fc.pool),
+				fmt.Sprintf("VERIF_E2E_GENSEED=%d", genSeed), "VERIF_E2E_GENTIER="+genTier)
+			if rcase != nil && rcase.Scenario != nil {
+				env = append(env, "VERIF_E2E_REPLAY="+o.Replay)
+			}
+			var out string
+			var err, lerr error
+			var r *common.Result
+			for attempt := 0; attempt < 3; attempt++ {
+				// a private port slot per child and attempt (ports.go)
+				slot := os.Getpid()*32 + i + attempt*101
+				os.Remove(outFile)
+				out, err = runCmd(tmp, 15*time.Minute, append(env, fmt.Sprintf("VERIF_E2E_SLOT=%d", slot)), filepath.Join(tmp, "child"), args...)
+				r, lerr = common.LoadResult(outFile)
+				if lerr == nil && strings.Contains(r.HarnessError, startupTrouble) {
+					// the child's server did not come up on ports of its own: nothing was tested
+					continue
+				}
+				break
+			}
 			mu.Lock()
 			defer mu.Unlock()
 			if lerr != nil {
-				res.HarnessError = fmt.Sprintf("child for filters %s failed: %v %v\n%s", fc, err, lerr, lastLines(out, 15))
+				res.HarnessError = fmt.Sprintf("child for filters %s pool %d failed: %v %v\n%s", fc.filters, fc.pool, err, lerr, lastLines(out, 15))
 				return
 			}
 			res.Merge(r)
@@ -220,6 +276,8 @@ func Launch() {
 	res.Rule = "random IDL interfaces (4 functions each over all member kinds, in/out parameters, void and typed returns) compiled by the working-tree tars2go; real proxy → TCP loopback → " +
 		"real dispatcher in one process; per function calls in modes {no options, context, context+status, one-way} with scripted implementation results (values, plain and tars errors, " +
 		"response context/status), then concurrent callers sharing the proxies; once per filter configuration (legacy single, middleware chains, pre/post) with recording pass-through filters; " +
+		"plus servers with a worker pool (maxroutine 1 and 2) where scripted slow calls hold every worker while one-way and two-way calls with their own client timeouts (shorter or longer than the wait) " +
+		"queue up; every byte between proxy and server passes a frame-parsing relay whose record of request and response frames is judged at the end (no reply to a one-way request, at most one reply per request, no unsolicited reply); " +
 		"non-trivial = distinct (filters, function, mode, seed)"
 	if res.HarnessError != "" {
 		res.Write(o.Out)
